@@ -577,7 +577,7 @@ _DATETIMEISO_PARSE_ARGS = value_args_model([
 # $return: The millisecond
 def _datetime_millisecond(args, unused_options):
     datetime_, = value_args_validate(_DATETIME_MILLISECOND_ARGS, args)
-    return int(value_round_number(value_normalize_datetime(datetime_).microsecond / 1000, 0))
+    return value_normalize_datetime(datetime_).microsecond // 1000
 
 _DATETIME_MILLISECOND_ARGS = value_args_model([
     {'name': 'datetime', 'type': 'datetime'}
